@@ -239,6 +239,12 @@ func genCase(r *core.Rand, mode, order string, quick bool) *tunnelCase {
 	if baseMode(mode) != "upgrade" && r.Chance(10) {
 		tc.HeadVariant = 1
 	}
+	if baseMode(mode) == "upgrade" && r.Chance(75) {
+		// the request that asks for the switch also carries the close option (token order / spelling / several
+		// field lines), is sent as HTTP/1.0, or carries keep-alive: all about the connection after the exchange,
+		// none of it may show in the tunnel (regression target of the repaired finding F52)
+		tc.UpgradeReq = r.Range(1, len(upgradeReqs)-1)
+	}
 	return tc
 }
 
@@ -276,7 +282,10 @@ func Run(ctx *core.Ctx) {
 		"random write segmentation on both sides, request head and early payload in one write or cut at " +
 		"offsets around the end of the head / byte by byte, far side sending payload in the same write as its reply, the upstream HTTP/HTTPS " +
 		"proxy's 2xx reply being HTTP/1.1 plain, HTTP/1.0, or (two cases in five) carrying Content-Length: 5 / Content-Length: 300000 / " +
-		"Transfer-Encoding: chunked / both, which a reply to CONNECT has to be read without (RFC 9110 9.3.6; the shape of the repaired F29), half-close order " +
+		"Transfer-Encoding: chunked / both, which a reply to CONNECT has to be read without (RFC 9110 9.3.6; the shape of the repaired F29), " +
+		"the upgrade request - to the origin directly and through an upstream HTTP proxy (px-), under the connection loop and the http.Handler - in three cases of four " +
+		"carrying the close option next to Upgrade (Upgrade, close / close, Upgrade / upgrade,CLOSE / on two field lines in both orders / with keep-alive), " +
+		"sent as HTTP/1.0 (with and without keep-alive) or with Connection: keep-alive, Upgrade: the tunnel is judged exactly as after a plain upgrade (the shape of the repaired F52), half-close order " +
 		"client-first / target-first / simultaneous with more data sent after the peer's end-of-stream was seen; a tunnel is non-trivial " +
 		"when it carries early data, a coalesced reply, a sequenced half-close or payload in both directions; distinct = distinct case objects. " +
 		"A second group (histogram labels grace/…, grace-tunnel/…, grace-mode/…) exercises the grace period of bicopy on the clock, with the period set " +
@@ -566,6 +575,13 @@ func (e *env) evaluate(ctx *core.Ctx, tc *tunnelCase, obs *tunnelObs) {
 		ctx.Count("coalesced-reply/no")
 	}
 	ctx.Count("reply/" + replyShape(tc))
+	if baseMode(tc.Mode) == "upgrade" {
+		v := upgradeReqOf(tc)
+		ctx.Count("upgrade-request/" + v.label)
+		if v.closes {
+			ctx.Count("upgrade-request-asks-to-close/" + tc.Mode)
+		}
+	}
 	if declaresContent(tc) {
 		up := "http-upstream"
 		if baseMode(tc.Mode) == "https" {
